@@ -117,6 +117,17 @@ func (in *Interp) runtimePanic(msg string) {
 	panic(progPanic{msg: msg, site: in.where()})
 }
 
+// shortName: "(pkg/path.T).m" -> "T.m", "pkg/path.f" -> "f"
+func shortName(n string) string {
+	n = strings.ReplaceAll(n, "github.com/josephburnett/jd/v2.", "")
+	n = strings.ReplaceAll(n, "github.com/josephburnett/jd/lib.", "lib.")
+	n = strings.ReplaceAll(n, "github.com/yudai/golcs.", "lcs.")
+	n = strings.ReplaceAll(n, "(", "")
+	n = strings.ReplaceAll(n, ")", "")
+	n = strings.ReplaceAll(n, "*", "")
+	return n
+}
+
 func (in *Interp) where() string {
 	if len(in.stack) == 0 {
 		return ""
@@ -179,7 +190,7 @@ func (in *Interp) callFunction(fn *ssa.Function, args []Value, env []Value) Valu
 		panic(pathEnd{"budget", "call depth"})
 	}
 	in.depth++
-	in.stack = append(in.stack, fn.Name())
+	in.stack = append(in.stack, shortName(name))
 	if in.funcCov != nil && pkgPath != "" {
 		in.funcCov[name] = true
 	}
